@@ -348,6 +348,20 @@ class CRTWorld:
                 t['cbs'].append((sim.stamp(), 'done',
                                  future._coordinator._done_event.is_set()))
 
+        # the instant a transfer is reported as having finished its callbacks:
+        # a path download must be published / its temporary file removed by then
+        real_set_complete = crt.CRTTransferCoordinator.set_done_callbacks_complete
+
+        def set_complete(coord):
+            for t in world.transfers:
+                if t['future'] is not None and t['future']._coordinator is coord and \
+                        t['type'] == 'download' and t['spec']['dst'] == 'path':
+                    temps = [x for x in world.fs.files if x.startswith(t['path'] + '.')]
+                    t['at_complete'] = (sim.stamp(), temps)
+            return real_set_complete(coord)
+        crt.CRTTransferCoordinator.set_done_callbacks_complete = set_complete
+        self._restore.append(lambda: setattr(
+            crt.CRTTransferCoordinator, 'set_done_callbacks_complete', real_set_complete))
         mgr = crt.CRTTransferManager(sys.modules['awscrt.s3'].S3Client(), Serializer())
         mgr._semaphore = th.Semaphore(self.permits)
         real_release = mgr._release_semaphore
@@ -456,9 +470,12 @@ class CRTWorld:
     def run(self):
         gc.disable()
         _current[0] = self
+        self._restore = []
         try:
             self.sim.run(self._driver)
         finally:
+            for fn in self._restore:
+                fn()
             _current[0] = None
             simstd.reset_between_runs()
             collect_between_runs()
@@ -541,6 +558,11 @@ def evaluate(w):
         if not t['future']._coordinator._done_event.is_set():
             w.violation('C20', 'callbacks-never-complete',
                         't%d: done callbacks were never reported complete' % t['idx'])
+        if t['type'] == 'download' and t['spec']['dst'] == 'path' and \
+                (t.get('at_complete') or (0, []))[1]:
+            w.violation('C20', 'reported-finished-before-publish',
+                        't%d: callbacks were reported complete while the temporary file(s) %r '
+                        'were neither renamed nor removed yet' % (t['idx'], t['at_complete'][1]))
         if t['type'] == 'download' and t['spec']['dst'] == 'path':
             p = t['path']
             temps = [x for x in w.fs.files if x.startswith(p + '.')]
@@ -560,6 +582,12 @@ def evaluate(w):
                 w.violation('C20', 'failed-download-touched-dest',
                             't%d: request failed (%r) but destination changed to %r'
                             % (t['idx'], err, _short(cur)))
+    if R is not None:
+        for (stamp, op, path, extra, tid) in w.fs.log:
+            if stamp > R and op in ('rename', 'remove'):
+                w.violation('C20', 'fs-after-shutdown',
+                            'fs %s %s at %d after shutdown returned at %d' % (op, path, stamp, R))
+                break
     return harness
 
 
